@@ -180,6 +180,16 @@ func checkPinnedNoGoal(queryFile string, extra []string, dir, name string) strin
 	return checkPinnedImpl(queryFile, extra, dir, name, true, false)
 }
 
+// positiveGoal (set by checkPinnedPositive) turns the goal around: is the
+// clause itself satisfiable under the pins?
+var positiveGoal bool
+
+func checkPinnedPositive(queryFile string, extra []string, dir, name string) string {
+	positiveGoal = true
+	defer func() { positiveGoal = false }()
+	return checkPinnedImpl(queryFile, extra, dir, name, true, true)
+}
+
 func checkPinnedImpl(queryFile string, extra []string, dir, name string, dropQuant, keepGoal bool) string {
 	b, err := os.ReadFile(queryFile)
 	if err != nil {
@@ -201,6 +211,14 @@ func checkPinnedImpl(queryFile string, extra []string, dir, name string, dropQua
 	var sb strings.Builder
 	for k, ln := range lines {
 		if k == goal && !keepGoal {
+			continue
+		}
+		if k == goal && positiveGoal {
+			t := strings.TrimSpace(ln)
+			if !strings.HasSuffix(t, "))") {
+				return "error"
+			}
+			sb.WriteString("(assert " + t[len("(assert (not "):len(t)-2] + ")\n")
 			continue
 		}
 		// contract-derived assumptions carry no :pattern; definitional axioms
@@ -974,6 +992,17 @@ func tryReplay(eng *Engine, o *Obligation, dir, name string) map[string]interfac
 			}
 		}
 	}
+	// a candidate taken from a weakened query (quantified assumptions left
+	// out) or from concrete guesses must still satisfy everything the
+	// function assumes, quantified preconditions included
+	if full := o.fullQuery; o.weakened && full != "" || len(o.pins) > 0 {
+		if full == "" || !o.weakened {
+			full = o.queryFile
+		}
+		if st := checkPinnedImpl(full, pins, dir, name+".pre", false, false); st == "unsat" {
+			return map[string]interface{}{"confirmed": false, "inputs": b.inputs, "reason": "the candidate input violates a precondition (or another assumed fact) of the function"}
+		}
+	}
 	// the call
 	call := fn.Name() + "(" + strings.Join(args, ", ") + ")"
 	if fn.Signature.Recv() != nil && len(args) > 0 {
@@ -1063,6 +1092,13 @@ func tryReplay(eng *Engine, o *Obligation, dir, name string) map[string]interfac
 		rec["observed_constraints"] = obs
 		switch stOut {
 		case "sat":
+			// is the clause decided by what was observed? If it can also hold
+			// under the same pins (uninterpreted spec functions, state that
+			// cannot be observed from outside), nothing is confirmed.
+			if stPos := checkPinnedPositive(o.queryFile, append(append([]string{}, pins...), obs...), dir, name+".pos"); stPos != "unsat" {
+				rec["reason"] = "the observed outcome does not determine the clause (it mentions uninterpreted spec functions or state that is not observable from outside); the failed obligation is reported without a failing input"
+				break
+			}
 			rec["confirmed"] = true
 			rec["reason"] = "with the inputs and the observed results fixed, the negated clause is satisfiable: the real outcome violates the clause"
 		case "unsat":
